@@ -18,3 +18,9 @@
   (ite (not (= (be_byte a 0) (be_byte b 0))) 0 (ite (not (= (be_byte a 1) (be_byte b 1))) 1 (ite (not (= (be_byte a 2) (be_byte b 2))) 2
   (ite (not (= (be_byte a 3) (be_byte b 3))) 3 (ite (not (= (be_byte a 4) (be_byte b 4))) 4 (ite (not (= (be_byte a 5) (be_byte b 5))) 5
   (ite (not (= (be_byte a 6) (be_byte b 6))) 6 7))))))))
+; x passes both format checks of Decode (magic number and split byte)
+(define-fun is_internal_key ((x!arr (Array Int (_ BitVec 8))) (x!off Int) (x!len Int)) Bool
+  (and (>= x!len 13) (= (select x!arr x!off) #x57) (= (select x!arr (+ x!off 1)) #xfb) (= (select x!arr (+ x!off 2)) #x80) (= (select x!arr (+ x!off 3)) #x8b)
+       (= (select x!arr (+ x!off (- x!len 9))) #x24)))
+; the revision field (last 8 bytes, big endian) of an internal key
+(define-fun key_rev ((x!arr (Array Int (_ BitVec 8))) (x!off Int) (x!len Int)) (_ BitVec 64) (be64 x!arr (+ x!off (- x!len 8))))
